@@ -28,7 +28,7 @@ theorem primBody_fresh (info : FieldInfo) (k : PrimK) (obj : GoVal) (s c : Sc) (
   have hz := hr.zero
   unfold primBody
   simp only [hp.vk]
-  simp only [nullOfTy, hp.notPlaceholder, hp.noEmbed, assignPrim, hp.notNullable, hr.cast]
+  simp only [primFresh, nullOfTy, hp.notPlaceholder, hp.noEmbed, assignPrim, hp.notNullable, hr.cast]
   by_cases hzv : (info.tf.zeroValue != "") = true
   · simp only [hzv, if_true] at hz
     simp [hzv, hz]
